@@ -8,6 +8,8 @@
 package main
 
 import (
+	"strings"
+	"encoding/json"
 	"flag"
 	"fmt"
 	"os"
@@ -58,12 +60,31 @@ func main() {
 		cw := newCaseWriter(*casesPath)
 		tr := newTracer(*outPath)
 		g := &genCtx{tier: *tier, seed: *seed, shard: si, shards: sk, part: *part}
-		g.emit = func(c Case) {
+		var recent []string // the last few cases, serialised
+		emit1 := func(c Case) {
 			g.n++
 			// traces are numbered globally unique per shard: shard*1e7 + n
 			c["t"] = si*10000000 + g.n
 			cw.write(c)
 			runGuarded(fam, c, tr)
+		}
+		g.emit = func(c Case) {
+			emit1(c)
+			if b, err := json.Marshal(c); err == nil && len(b) < 20000 && !strings.Contains(caseStr(c, "k"), "sweep") {
+				recent = append(recent, string(b))
+				if len(recent) > 4 {
+					recent = recent[1:]
+				}
+			}
+			// every seventh case is followed by a repetition of an earlier one (A, B, C, A): a call that was answered
+			// before is answered the same way again, whatever came in between
+			if g.n%7 == 0 && len(recent) == 4 {
+				again := readCaseJSON(recent[0])
+				if again != nil {
+					delete(again, "t")
+					emit1(again)
+				}
+			}
 		}
 		fam.gen(g)
 		cw.close()
